@@ -1067,6 +1067,9 @@ def length_curve(obj):
         raise GeomdlException("Input shape must be an instance of abstract.Curve class")
 
     length = 0.0
+    # The length is that of the whole curve: evaluate it over its full domain (the cached points may belong to a
+    # sub-range requested earlier via evaluate(start=..., stop=...))
+    obj.evaluate()
     evalpts = obj.evalpts
     num_evalpts = len(obj.evalpts)
     for idx in range(num_evalpts - 1):
